@@ -576,12 +576,12 @@ func c06Run(b *core.B) {
 
 func init() {
 	core.Register(&core.Prop{
-		ID:    "C06",
-		Level: "exploration",
-		Rule: "expression trees over int/float/string/bool/nil literals and variables, an unknown identifier, with + - * / < <= > >= == != ~= && || !; depth 1 exhaustive over 22 leaves (incl. ! placements), depth 2 both shapes over a 12-leaf pool (exhaustive in thorough, 1/10 in quick), random to depth 5. Each tree is printed with minimal, random-redundant and full parentheses, every leaf wrapped in a recording helper; the engine's value, error status and evaluation trace are compared with a reference evaluator of the documented semantics, and the three printings with each other. Non-trivial = judged (not abstained) tree, counted by the hash of its minimal printing.",
-		Assume:  []string{"abstentions (not judged): string compared with a non-string, bool on the left of == != + with a non-bool right, bool + bool, string + nil", "the reference evaluator encodes the property text: int x int, float x float, string x string, bool x bool (== !=), nil (== !=), string + x; everything else is a type mismatch"},
-		Batches: batchesQT(16, 64),
-		Run:     c06Run,
+		ID:         "C06",
+		Level:      "exploration",
+		Rule:       "expression trees over int/float/string/bool/nil literals and variables, an unknown identifier, with + - * / < <= > >= == != ~= && || !; depth 1 exhaustive over 22 leaves (incl. ! placements), depth 2 both shapes over a 12-leaf pool (exhaustive in thorough, 1/10 in quick), random to depth 5. Each tree is printed with minimal, random-redundant and full parentheses, every leaf wrapped in a recording helper; the engine's value, error status and evaluation trace are compared with a reference evaluator of the documented semantics, and the three printings with each other. Non-trivial = judged (not abstained) tree, counted by the hash of its minimal printing.",
+		Assume:     []string{"abstentions (not judged): string compared with a non-string, bool on the left of == != + with a non-bool right, bool + bool, string + nil", "the reference evaluator encodes the property text: int x int, float x float, string x string, bool x bool (== !=), nil (== !=), string + x; everything else is a type mismatch"},
+		Batches:    batchesQT(16, 64),
+		Run:        c06Run,
 		Exhaustive: func(t core.Tier) bool { return t == core.Thorough },
 	})
 }
